@@ -22,8 +22,6 @@ import (
 	"math"
 	"net/http"
 	"net/http/httptest"
-	"os"
-	"regexp"
 	"sort"
 	"strconv"
 	"strings"
@@ -361,6 +359,9 @@ func metricLess(a, b *dto.Metric) bool {
 		return len(a.Label) < len(b.Label)
 	}
 	for n, lp := range a.Label {
+		if ni, nj := lp.GetName(), b.Label[n].GetName(); ni != nj {
+			return ni < nj
+		}
 		vi, vj := lp.GetValue(), b.Label[n].GetValue()
 		if vi != vj {
 			return vi < vj
@@ -1817,17 +1818,9 @@ func runC17(c *cli.Ctx) error {
 
 // knownHelpLeadingBlank: a help string that starts with a blank or tab is not reproduced by the text
 // parser (it skips leading blanks), so comparing a gatherer with its own exposition reports a diff.
-// The ordinary streams never generate such a help.  The stream is only produced once the finding is
-// listed in known_findings.txt (key=help-leading-blank), because an unlisted known-stream is a violation.
+// The ordinary streams never generate such a help; bin/check matches this stream against known_findings.txt
+// (key=help-leading-blank).
 func (w *world) knownHelpLeadingBlank(dir string) error {
-	home := os.Getenv("VERIF_HOME")
-	if home == "" {
-		home = "/verif"
-	}
-	b, err := os.ReadFile(home + "/known_findings.txt")
-	if err != nil || !regexp.MustCompile(`(?m)^known:\s+property=C17\s+key=help-leading-blank\b`).Match(b) {
-		return nil
-	}
 	out := emit.NewWriter(dir, "C17", "known-help-leading-blank")
 	for i, help := range []string{" leading blank", "\tleading tab", "  two blanks", " "} {
 		rs := regSpec{fams: []famSpec{{name: fmt.Sprintf("known_help_%d", i), help: help, typ: tGauge, children: []childSpec{{val: float64(i)}}}}}
